@@ -465,7 +465,7 @@ def main():
     budget = 34 if a.tier == "quick" else 330
     for stream, fn in STREAMS.items():
         for i in range(COUNTS[a.tier][stream]):
-            if time.time() - rec.t0 > budget:
+            if time.process_time() - rec.cpu0 > 2 * budget:
                 rec.tally("stopped_on_time_budget")
                 break
             try:
